@@ -244,6 +244,19 @@ impl Store {
 
         new_store.sync()?;
 
+        // Close the old environment. heed keeps every environment it has opened in a
+        // process-wide cache (keyed by path) until it is explicitly closed: left open,
+        // the next rebuild would be handed this one again when it opens the directory
+        // it has just moved to the same backup path, and would copy this stale index.
+        drop(old_txn);
+        let Store {
+            indexes: old_indexes,
+            events: old_events,
+            ..
+        } = old_store;
+        old_indexes.close()?;
+        drop(old_events);
+
         if need_chown {
             std::os::unix::fs::chown(&events_path, Some(file_uid), None)?;
 
